@@ -991,6 +991,7 @@ func globFollowsSymlinks(c *Check, a *Anchors) {
 			continue
 		}
 		c.Fn(g)
+		var pm map[ast.Node]ast.Node
 		for _, call := range callsIn(g, true) {
 			fn, ok := callee(g.Info(), call).(*types.Func)
 			if !ok || fn.Pkg() == nil {
@@ -998,6 +999,20 @@ func globFollowsSymlinks(c *Check, a *Anchors) {
 			}
 			switch {
 			case fn.Pkg().Path() == "os" && (fn.Name() == "Stat" || fn.Name() == "Lstat"):
+				// the FileInfo that is examined (bound to a variable) must come from os.Stat; an os.Lstat whose FileInfo is
+				// discarded only probes whether the entry itself exists (telling a dangling link from a missing name)
+				infoUsed := true
+				if pm == nil {
+					pm = parentMap(g.Body)
+				}
+				if as, ok := pm[call].(*ast.AssignStmt); ok && len(as.Lhs) == 2 {
+					if id, ok := as.Lhs[0].(*ast.Ident); ok && id.Name == "_" {
+						infoUsed = false
+					}
+				}
+				if !infoUsed {
+					continue
+				}
 				n++
 				c.Decide(fn.Name() == "Stat", "glob-follows-symlinks", ordinal(ord, "stat@"+fnDisplay(g)), call.Pos(), "os.Stat follows symbolic links",
 					"the expanded names are examined with os.Lstat: a name that is a symbolic link is judged as the link, not as the file it points to")
